@@ -42,8 +42,16 @@ func c11Payloader(c *mc.Ctx) {
 		frames = 300
 	}
 	p := &codecs.VP8Payloader{EnablePictureID: ids}
+	// for odd offsets an unrelated second payloader is used every third frame
+	var decoy *codecs.VP8Payloader
+	if offset%2 == 1 {
+		decoy = &codecs.VP8Payloader{EnablePictureID: true}
+	}
 	multi := 0
 	for f := 0; f < frames; f++ {
+		if decoy != nil && f%3 == 0 {
+			decoy.Payload(uint16(mtu), []byte{0xD1, 0xD2})
+		}
 		id := uint16(f & 0x7FFF)
 		h := 1
 		if ids {
@@ -58,10 +66,10 @@ func c11Payloader(c *mc.Ctx) {
 		if n < 1 {
 			n = 1
 		}
-		frame := fill(n, byte(f))
-		keep := clone(frame)
+		keep := fill(n, byte(f))
+		frame, intact := guard(keep)
 		pkts := p.Payload(uint16(mtu), frame)
-		if !bytes.Equal(frame, keep) {
+		if !bytes.Equal(frame, keep) || !intact() {
 			c.Failf("input-modified", "mtu=%d frame %d: Payload changed its input", mtu, f)
 		}
 		if len(pkts) == 0 {
